@@ -30,9 +30,19 @@ def obsNums (acts : List Act) : List Nat :=
 def base (t : Task) : Nat :=
   if t.phase = .waitTrig ∨ t.phase = .loopRender then t.obsNo + 1 else 0
 
-macro "step_auto" : tactic => `(tactic|
-  (simp only [stepTask, startTask, afterFirst, atAwait, afterLoop, finish, cancelStep] <;>
-   (repeat' split) <;> simp_all))
+/-- every path through one step of the coroutine.  The helper functions are unfolded one at a
+time, splitting in between, so that no term ever holds the whole coroutine (each helper returns a
+pair that its caller uses twice) -/
+macro "step_paths" : tactic => `(tactic|
+  (unfold stepTask <;> (repeat' split) <;>
+   (try unfold startTask at *) <;> (repeat' split) <;> (try dsimp only at *) <;>
+   (try unfold afterFirst at *) <;> (repeat' split) <;> (try dsimp only at *) <;>
+   (try unfold afterLoop at *) <;> (repeat' split) <;> (try dsimp only at *) <;>
+   (try unfold atAwait at *) <;> (repeat' split) <;> (try dsimp only at *) <;>
+   (try unfold afterLoop at *) <;> (repeat' split) <;> (try dsimp only at *) <;>
+   (try simp only [finish, cancelStep] at *) <;> (repeat' split)))
+
+macro "step_auto" : tactic => `(tactic| (step_paths <;> simp_all))
 
 /-- the callback count of the task grows by the number of `callback` effects -/
 theorem stepTask_cbs (val : Nat) (t : Task) (plan : Plan) (acc : Bool) :
@@ -42,14 +52,12 @@ theorem stepTask_cbs (val : Nat) (t : Task) (plan : Plan) (acc : Bool) :
 /-- a last event ends the task -/
 theorem stepTask_last (val : Nat) (t : Task) (plan : Plan) (acc : Bool) :
     hasLast (stepTask val t plan acc).2 = true → (stepTask val t plan acc).1.phase = .done := by
-  simp only [stepTask, startTask, afterFirst, atAwait, afterLoop, finish, cancelStep]
-  repeat' split
+  step_paths
   all_goals simp_all [hasLast]
 
 /-- a wanted task stays wanted unless it puts the last event on its pipe -/
 theorem stepTask_live (val : Nat) (t : Task) (plan : Plan) (acc : Bool) (h : t.live = true) :
     (stepTask val t plan acc).1.live = true ∨ hasLast (stepTask val t plan acc).2 = true := by
   simp only [Task.live, Bool.and_eq_true, bne_iff_ne, ne_eq, Bool.not_eq_true'] at h
-  simp only [stepTask, startTask, afterFirst, atAwait, afterLoop, finish, cancelStep]
-  repeat' split
+  step_paths
   all_goals simp_all [hasLast, Task.live]
